@@ -167,19 +167,23 @@ fn one_assignment(assign: [usize; 4], cycles: usize) -> (u64, u64, Vec<Viol>, BT
         // fixpoint histories: read -> write, `cycles` times, by three routes
         let base = env_part(&Snapshot::take(&layer).unwrap());
         let expect_files = env_files_of(&abs);
-        for route in 0..4 {
+        for route in 0..6 {
             for c in 0..cycles {
                 fix += 1;
+                if route >= 4 {
+                    // as the lifecycle restores a cached layer: the content metadata without [types]
+                    std::fs::write(ctx.layers_dir.join("a.toml"), "[metadata]\nk = 1\n").unwrap();
+                }
                 let r: Result<(), String> = match route {
                     0 => LayerEnv::read_from_layer_dir(&layer).and_then(|e| e.write_to_layer_dir(&layer)).map_err(|e| e.to_string()),
                     1 => ctx
                         .cached_layer("a".parse::<libcnb::data::layer::LayerName>().unwrap(), CachedLayerDefinition { build: true, launch: true, invalid_metadata_action: &|_| InvalidMetadataAction::DeleteLayer::<GenericMetadata>, restored_layer_action: &|_: &GenericMetadata, _| RestoredLayerAction::KeepLayer })
                         .and_then(|lr| lr.read_env().and_then(|e| lr.write_env(e)))
                         .map_err(|e| format!("{e:?}")),
-                    2 => ctx.handle_layer("a".parse().unwrap(), KeepLayer).map(|_| ()).map_err(|e| format!("{e:?}")),
+                    2 | 4 => ctx.handle_layer("a".parse().unwrap(), KeepLayer).map(|_| ()).map_err(|e| format!("{e:?}")),
                     _ => ctx.handle_layer("a".parse().unwrap(), UpdateDefaultLayer).map(|_| ()).map_err(|e| format!("{e:?}")),
                 };
-                let route_name = ["LayerEnv read->write", "cached_layer keep + read_env->write_env", "handle_layer Keep", "handle_layer Update (default impl)"][route];
+                let route_name = ["LayerEnv read->write", "cached_layer keep + read_env->write_env", "handle_layer Keep", "handle_layer Update (default impl)", "handle_layer Keep on a restored layer (no [types])", "handle_layer Update (default impl) on a restored layer (no [types])"][route];
                 if let Err(e) = r {
                     viols.push((format!("fixpoint-call-failed:{route}"), format!("layer {adesc:?}, env '{ename}': {route_name} cycle {} failed: {e}", c + 1), json!({"assign": assign, "env": ename, "route": route})));
                     break;
@@ -249,8 +253,8 @@ pub fn run(args: &Args) {
     rep.cov("fixpoint_cycles_run", fix);
     rep.cov("distinct_nontrivial", outcomes.len() as u64);
     rep.cov("distinct_outcomes", outcomes.len() as u64);
-    rep.cov("rule", "all 6^4 assignments of {absent, dir, file, symlink->dir, symlink->file, dangling symlink} to bin/lib/include/pkgconfig, plus two kinds that fail to resolve with ELOOP / ENOTDIR (quick: all 4^4 over {absent, dir, ELOOP, ENOTDIR}; thorough: all 8^4) x 10 explicit envs (two with a non-empty per-process directory, three whose value is exactly the layer's own bin/lib path) on the same variables x 3 start envs (unset, set, empty) x 4 query scopes, each read by the real read_from_layer_dir and compared with the reference; per assignment x explicit env, read->write cycles by 4 routes (LayerEnv, cached_layer keep+read_env/write_env, handle_layer Keep, handle_layer Update with the default impl) must leave the env directories unchanged. distinct_nontrivial = distinct (scope, resulting environment) outcomes with the scratch path normalised");
-    rep.cov("bound", json!({"assignments": assigns.len(), "explicit_envs": 10, "start_envs": 3, "scopes": 4, "cycles": cycles, "routes": 4}));
+    rep.cov("rule", "all 6^4 assignments of {absent, dir, file, symlink->dir, symlink->file, dangling symlink} to bin/lib/include/pkgconfig, plus two kinds that fail to resolve with ELOOP / ENOTDIR (quick: all 4^4 over {absent, dir, ELOOP, ENOTDIR}; thorough: all 8^4) x 10 explicit envs (two with a non-empty per-process directory, three whose value is exactly the layer's own bin/lib path) on the same variables x 3 start envs (unset, set, empty) x 4 query scopes, each read by the real read_from_layer_dir and compared with the reference; per assignment x explicit env, read->write cycles by 6 routes (LayerEnv, cached_layer keep+read_env/write_env, handle_layer Keep, handle_layer Update with the default impl, the last two also on a restored layer whose toml has no [types]) must leave the env directories unchanged. distinct_nontrivial = distinct (scope, resulting environment) outcomes with the scratch path normalised");
+    rep.cov("bound", json!({"assignments": assigns.len(), "explicit_envs": 10, "start_envs": 3, "scopes": 4, "cycles": cycles, "routes": 6}));
     rep.cov("exhaustive", true);
     rep.sample(json!({"assignment": {"bin": "link->dir", "lib": "file", "include": "dir", "pkgconfig": "dangling"}, "explicit": "PATH append+delim in build", "scope": "Build", "start": "all five variables set"}));
     rep.sample(json!({"fixpoint": "bin=dir lib=dir include=absent pkgconfig=absent; handle_layer Keep x3; env dirs must stay as written"}));
